@@ -13,6 +13,7 @@ import (
 	"github.com/q191201771/lal/pkg/logic"
 	"github.com/q191201771/lal/pkg/remux"
 	"github.com/q191201771/lal/pkg/rtmp"
+	"github.com/q191201771/lal/pkg/rtprtcp"
 )
 
 // L1 harness: a REAL logic.Group with real rtmp.ServerSession / httpflv.SubSession objects whose
@@ -267,6 +268,24 @@ func init() {
 			return "-"
 		}
 		return strings.Join(gops, "/")
+	}
+	// c02.boundary <avc|hevc> <rtp payload>  =>  1|0: may a consumer that waits for a key frame be started at this packet
+	// (rtprtcp.IsAvcBoundary / IsHevcBoundary, the gate of RTSP consumers with out_wait_key_frame_flag)
+	ops["c02.boundary"] = func(a []string) string {
+		h := rtprtcp.MakeDefaultRtpHeader()
+		h.PacketType = 96
+		h.Seq = 7
+		pkt := rtprtcp.MakeRtpPacket(h, unhx(a[1]))
+		var r bool
+		if a[0] == "avc" {
+			r = rtprtcp.IsAvcBoundary(pkt)
+		} else {
+			r = rtprtcp.IsHevcBoundary(pkt)
+		}
+		if r {
+			return "1"
+		}
+		return "0"
 	}
 	gens["C01"] = genC01
 	gens["C02"] = genC02
@@ -550,6 +569,24 @@ func genGopTs(g *G, n int) {
 func genC02(g *G) {
 	r := g.rng
 	genGopTs(g, g.scale(100, 3000))
+	// the key-frame gate of RTSP consumers: every NAL type alone, aggregated, and as first / middle / last fragment
+	for t := 0; t < 32; t++ {
+		g.L("boundary-avc").run(fmt.Sprintf("c02.boundary avc %02x%s", 0x60|t, hx(r.Bytes(4))))
+		g.L("boundary-avc").run(fmt.Sprintf("c02.boundary avc 78000265%02x0001%02x", t, 0x61)) // STAP-A: first unit decides
+		for _, se := range []int{0x80, 0x00, 0x40, 0xc0} {
+			g.L("boundary-avc").run(fmt.Sprintf("c02.boundary avc 7c%02x%s", se|t, hx(r.Bytes(3))))
+		}
+	}
+	for t := 0; t < 64; t++ {
+		g.L("boundary-hevc").run(fmt.Sprintf("c02.boundary hevc %02x01%s", t<<1, hx(r.Bytes(4))))
+		for _, se := range []int{0x80, 0x00, 0x40, 0xc0} {
+			g.L("boundary-hevc").run(fmt.Sprintf("c02.boundary hevc 6201%02x%s", se|t, hx(r.Bytes(3))))
+		}
+	}
+	for _, b := range []string{"-", "65", "7c", "7c85", "78", "780001", "62", "6201", "620193"} {
+		g.L("boundary-short").run("c02.boundary avc " + b)
+		g.L("boundary-short").run("c02.boundary hevc " + b)
+	}
 	for i := 0; i < g.scale(400, 15000); i++ {
 		gen := &c01Gen{r: r}
 		shape := r.Pick(0, 0, 1, 2, 3, 4, 5)
